@@ -173,8 +173,6 @@ pub mod multi_writer {
     //@      || (s == 1 && f == self.format_for_stdout && dup_allows(self.dup_out_spec(), record_level(record)))))
     //@   req[MultiWriter::write.pre.fw] forall|x: &Record| #[trigger] fw_ok(x) <==> x == record
     //@   req[MultiWriter::write.pre.ow] forall|id: int, x: &Record| #[trigger] ow_ok(id, x) <==> (x == record && self.o_other_writer is Some && id == self.other_id())
-    //@   closure 1 sig |e: std::io::Error| -> (r: ())
-    //@   closure 2 sig |e: std::io::Error| -> (r: ())
     //@   ens[MultiWriter::write.post.file] r is Ok && self.o_file_writer is Some ==> fw_result(record) is Ok
     //@   ens[MultiWriter::write.post.other] r is Ok && self.o_other_writer is Some ==> ow_result(self.other_id(), record) is Ok
     //@   ens[MultiWriter::write.post.dup] r is Ok && !self.support_capture && dup_allows(self.dup_err_spec(), record_level(record)) ==> super::util::wb_result(self.format_for_stderr, record, 2) is Ok
